@@ -138,25 +138,45 @@ Print Assumptions C14_cast_def_distinct.
 Example C14_cast_def_distinct_nonvacuous : wf_types [Def 1 ex_zahl; Def 2 ex_zahl] = true /\ 1 <> 2.
 Proof. exact ex_cast_distinct_hyp. Qed.
 
-(* ---- reference context (`x als T` as assignment target / Referenz argument): the rule FAILS ------- *)
-Theorem C14_cast_assignable_between_defs_refuted :
-  exists lhs target,
-    wf_types [lhs; target] = true /\ is_type_def lhs = true /\ is_type_def target = true /\
-    cast_ok lhs target = false /\ cast_assignable_ok lhs target = true.
-Proof. exact cast_assignable_between_defs_refuted. Qed.
-Print Assumptions C14_cast_assignable_between_defs_refuted.
+(* ---- reference context (`x als T` as assignment target / Referenz argument): the SAME rule ---------- *)
+Theorem C14_cast_assignable_def_rule :
+  forall lhs target,
+    wf_types [lhs; target] = true -> is_type_def lhs || is_type_def target = true ->
+    (cast_assignable_ok lhs target = true <->
+     equal lhs target = true \/
+     (exists b, cast_type_def lhs = Some b /\ equal b target = true) \/
+     (exists b, cast_type_def target = Some b /\ equal b lhs = true)).
+Proof. exact cast_assignable_def_rule. Qed.
+Print Assumptions C14_cast_assignable_def_rule.
+Example C14_cast_assignable_def_rule_nonvacuous :
+  wf_types [ex_db; ex_zeiger] = true /\ is_type_def ex_db || is_type_def ex_zeiger = true /\
+  cast_assignable_ok ex_db ex_zeiger = true /\ cast_assignable_ok ex_db ex_haus = false /\ cast_assignable_ok ex_haus ex_zeiger = false.
+Proof. exact ex_cast_assignable_hyp. Qed.
 
-Theorem C14_cast_assignable_partial :
-  forall a b, wf_types [a; b] = true -> cast_assignable_ok a b = true -> deep_equal a b = true.
-Proof. exact cast_assignable_partial. Qed.
-Print Assumptions C14_cast_assignable_partial.
-Example C14_cast_assignable_partial_nonvacuous : wf_types [ex_db; ex_haus] = true /\ cast_assignable_ok ex_db ex_haus = true.
-Proof. exact ex_cast_assignable_partial_hyp. Qed.
+(* the reference cast and the value cast agree wherever a definition is converted *)
+Theorem C14_cast_assignable_matches_cast :
+  forall lhs target,
+    wf_types [lhs; target] = true -> is_any lhs = false -> is_any target = false ->
+    is_type_def lhs || is_type_def target = true ->
+    cast_assignable_ok lhs target = equal lhs target || cast_ok lhs target.
+Proof. exact cast_assignable_matches_cast. Qed.
+Print Assumptions C14_cast_assignable_matches_cast.
+
+Theorem C14_cast_assignable_def_distinct :
+  forall i j u, wf_types [Def i u; Def j u] = true -> i <> j -> cast_assignable_ok (Def i u) (Def j u) = false.
+Proof. exact cast_assignable_def_distinct. Qed.
+Print Assumptions C14_cast_assignable_def_distinct.
 
 Theorem C14_cast_assignable_base_ok :
   forall i u, cast_assignable_ok (Def i u) u = true /\ cast_assignable_ok u (Def i u) = true.
 Proof. exact cast_assignable_base_ok. Qed.
 Print Assumptions C14_cast_assignable_base_ok.
+
+(* it only ever relates types with the same representation *)
+Theorem C14_cast_assignable_representation :
+  forall a b, wf_types [a; b] = true -> cast_assignable_ok a b = true -> deep_equal a b = true.
+Proof. exact cast_assignable_representation. Qed.
+Print Assumptions C14_cast_assignable_representation.
 
 (* ---- the structurally recursive model functions satisfy the recursion equations of the Go code ---- *)
 Theorem C14_true_underlying_go_eq : forall t, true_underlying t = go_true_underlying_body t.
